@@ -52,6 +52,11 @@ claimed["C12"] = dict(
    note="Trusted: govc and the SMT solvers; go/types accessors and constructors as uninterpreted functions with the axioms of contracts/extern/base.spec; every implementation of Type.Type() is a pure function of the node (interface dispatch is one uninterpreted function: the per-kind contracts are NOT linked back to it); fetchEnumsAndUnions and fetchStructComments have assumed contracts pinned to their code. NOT decided by this check: closure (every reachable type is in the result), the global identity of round trips over cyclic graphs, and termination of the analysis on recursive declarations — they need a coinductive argument over the finite go/types graph and an in-progress set the memo table does not separate; the bounded harness is all there is for them.",
    ref="DESIGN §4 C12")
 
+claimed["C15"] = dict(
+   text="Kernel claim (" + KERNEL_NOTE + "). Proved for all inputs, on the generator functions: codeForEnum builds a choice list with no empty entry, every entry being the printed name of an exported member and every exported member having its entry (the emitted array literal is joined from that list); codeForUnion builds one generator call per member, in member order, and passes len(Members) > 0 to rand.Intn; codeForStruct: a field that is unexported or tagged gomacro-data:\"ignore\" contributes no assignment and no recursive generation (skip lemma). One genuine defect was found and repaired (empty entries for unexported members, b9aa39f).",
+   note="Trusted: govc and the SMT solvers; types.ObjectString / strings.Fields described by uninterpreted functions (a printed constant has at least two non-empty fields); unions are never empty (established by fetchPkgUnions and createType under C11, a precondition here); callees without contract are havocked. NOT decided — and known to be false on the tree for recursive types: termination of the emitted functions (the generator emits an unconditional call per element with slice length >= 3, so every cyclic type diverges), the values they return, their variation under different seeds, the JSON round trip: all of that is the run-time meaning of emitted Go, which this family cannot express. A pass of this check must not be read as 'C15 holds'.",
+   ref="DESIGN §4 C15")
+
 not_applicable = {
  "C01": "type-checking of emitted Go text for all inputs needs a typing judgement over Sprintf templates; no contract on a Go function returning a string can express it (DESIGN §5)",
  "C02": "round trip and wire bytes are run-time behaviour of the emitted wrappers under encoding/json; a contract on the generator can only restate its templates (DESIGN §5)",
